@@ -29,8 +29,9 @@ class Block:
     """one macro instance in the arena"""
 
     def __init__(self, key: str, fj: str, v: Sequence[str], n: int = 0, m: int = 0, sh: int = 0, c: int = 0,
-                 branches: Sequence[str] = (), name: str = ""):
+                 branches: Sequence[str] = (), name: str = "", B: int = 0):
         self.key, self.fj, self.v, self.n, self.m, self.sh, self.c = key, fj, list(v), n, m, sh, c
+        self.B = B          # digit base of the macro's namespace (0: the arena's)
         self.branches = list(branches)
         self.name = name or key
 
@@ -39,7 +40,7 @@ class Block:
         text = self.fj.format(n=self.n, m=self.m, sh=self.sh, c=self.c, **{f"v{i}": x for i, x in enumerate(self.v)}, **labels)
         out = [f"blk_{idx}:", f"  {text}", "  ;again"]
         for j, b in enumerate(self.branches):
-            out += [f"br_{idx}_{b}:", f"  stl.output_char {MARK_BR0 + j}", "  ;dispatch"]
+            out += [f"br_{idx}_{b}:", f"  hex.set brvar, {j + 1}", "  ;again"]
         return "\n".join(out)
 
     def step_json(self) -> dict:
@@ -56,6 +57,9 @@ class Arena:
                  extra_decl: str = "", init: str = "stl.startup_and_init_all", engine: str = "native-flat"):
         self.fjm_run, self.w, self.kind, self.vars, self.nd, self.blocks = fjm_run, w, kind, list(variables), ndigits, list(blocks)
         self.extra_decl, self.init, self.engine = extra_decl, init, engine
+        self.extra_names: List[str] = []      # labels of extra declarations (not hidden library state)
+        self.var_kind: Dict[str, str] = {}    # variable -> "hex" / "bit" (default: the arena's kind)
+        self.var_nd: Dict[str, int] = {}      # variable -> number of digits (default: ndigits)
         self.dir = Path(tempfile.mkdtemp(prefix="fjv_arena_"))
         self.labels: Dict[str, int] = {}
         self.asm_seconds = 0.0
@@ -63,11 +67,15 @@ class Arena:
     # ---- building -----------------------------------------------------------------------------
     def source(self) -> str:
         vec = "hex.vec" if self.kind == "hex" else "bit.vec"
-        lines = [self.init, "again:", f"  stl.output_char {MARK_RET}", "dispatch:", "  ;blk_0"]
+        # the marker: set a flag cell, then output ONE bit.  The device looks at the flag on every output bit, so the
+        # macros under test may print anything (their bits arrive with the flag clear).
+        lines = [self.init, "again:", "  hex.set mflag, 1", "  stl.output_bit 0", "dispatch:", "  ;blk_0"]
         for i, b in enumerate(self.blocks):
             lines.append(b.render(i))
         for v in self.vars:
-            lines.append(f"{v}: {vec} {self.nd}")
+            vk = self.var_kind.get(v, self.kind)
+            lines.append(f"{v}: {'hex.vec' if vk == 'hex' else 'bit.vec'} {self.var_nd.get(v, self.nd)}")
+        lines += ["mflag: hex.hex", "brvar: hex.hex"]
         lines.append(self.extra_decl)
         return "\n".join(lines) + "\n"
 
@@ -85,7 +93,7 @@ class Arena:
         self.asm_seconds = time.time() - t0
         self.labels = load_debugging_labels(self.dir / "arena.fjd")
         glob = {k: v for k, v in self.labels.items() if "---" not in k and ":" not in k}
-        mine = set(self.vars) | {"again", "dispatch"} | {k for k in glob if k.startswith(("blk_", "br_"))}
+        mine = set(self.vars) | {"again", "dispatch", "mflag", "brvar"} | set(self.extra_names) | {k for k in glob if k.startswith(("blk_", "br_"))}
         self.hidden_labels = sorted((v, k) for k, v in glob.items() if k not in mine and k != "stl.IO" and not k.startswith("_"))
 
     def close(self) -> None:
@@ -124,38 +132,55 @@ class Arena:
                 self.rest = None       # hidden words at rest
                 self.cur: List[dict] = []
                 self.nbytes = 0
+                self.inbits: List[int] = []
+                self.inpos = 0
+                self.inused = 0
+                self.outbits: List[int] = []
 
             def attach_memory(self, dm):
                 self.mem = dm
 
             def read_bit(self):
-                raise Stop("the arena takes no input")
+                # the current step's input bits, then zeros for ever (a real end of input would end the whole run)
+                self.inused += 1
+                if self.inpos < len(self.inbits):
+                    b = self.inbits[self.inpos]
+                    self.inpos += 1
+                    return bool(b)
+                return False
 
             def get_output(self, *, allow_incomplete_output=False):  # noqa: ARG002
                 return b""
 
             # -- memory helpers
+            def geom(self, name: str):
+                db = 4 if arena.var_kind.get(name, arena.kind) == "hex" else 1
+                return db, (1 << db) - 1, arena.var_nd.get(name, arena.nd)
+
             def get_var(self, name: str) -> int:
                 base = op_word(lab[name])
+                db, dm, nd = self.geom(name)
                 v = 0
-                for i in range(arena.nd):
-                    v |= ((self.mem.read_word(base + 2 * i + 1) >> sh) & dig_mask) << (dig_bits * i)
+                for i in range(nd):
+                    v |= ((self.mem.read_word(base + 2 * i + 1) >> sh) & dm) << (db * i)
                 return v
 
             def clean_var(self, name: str) -> bool:
                 """at rest a variable op is exactly  0 ; value << #w  (hex) / value * dw (bit)"""
                 base = op_word(lab[name])
-                for i in range(arena.nd):
+                db, dm, nd = self.geom(name)
+                for i in range(nd):
                     if self.mem.read_word(base + 2 * i) != 0:
                         return False
-                    if self.mem.read_word(base + 2 * i + 1) & ~(dig_mask << sh):
+                    if self.mem.read_word(base + 2 * i + 1) & ~(dm << sh):
                         return False
                 return True
 
             def set_var(self, name: str, value: int):
                 base = op_word(lab[name])
-                for i in range(arena.nd):
-                    self.mem.write_word(base + 2 * i + 1, ((value >> (dig_bits * i)) & dig_mask) << sh)
+                db, dm, nd = self.geom(name)
+                for i in range(nd):
+                    self.mem.write_word(base + 2 * i + 1, ((value >> (db * i)) & dm) << sh)
 
             def hidden(self) -> List[int]:
                 out = []
@@ -171,12 +196,15 @@ class Arena:
                 return (self.mem.read_word(op_word(lab[label]) + 1) >> (sh + 8)) & 1
 
             def write_bit(self, bit):
-                self.byte |= (1 if bit else 0) << self.nbits
-                self.nbits += 1
-                if self.nbits < 8:
+                fw = op_word(lab["mflag"]) + 1
+                if not (self.mem.read_word(fw) >> sh) & 0xF:
+                    self.outbits.append(1 if bit else 0)      # output of the macro under test
                     return
-                b, self.byte, self.nbits = self.byte, 0, 0
-                self.on_marker(b)
+                self.mem.write_word(fw, 0)
+                bw = op_word(lab["brvar"]) + 1
+                br = (self.mem.read_word(bw) >> sh) & 0xF
+                self.mem.write_word(bw, 0)
+                self.on_marker(MARK_RET if br == 0 else MARK_BR0 + br - 1)
 
             def on_marker(self, marker: int):
                 self.nbytes += 1
@@ -197,7 +225,7 @@ class Arena:
                     self.cur.append({"vals": {v: self.get_var(v) for v in arena.vars},
                                      "clean": all(self.clean_var(v) for v in arena.vars),
                                      "addc": self.carry("hex.add.dst"), "subc": self.carry("hex.sub.dst"),
-                                     "br": br, "hidden_ok": hid_ok})
+                                     "br": br, "hidden_ok": hid_ok, "out": self.outbits, "inused": self.inused})
                     if self.si + 1 >= len(beh):
                         results[self.bi] = self.cur
                         self.cur = []
@@ -215,6 +243,7 @@ class Arena:
                         self.mem.write_word(b0 + 1, self.rest[2 * k + 1])
                 self.si += 1
                 step = beh[self.si]
+                self.inbits, self.inpos, self.inused, self.outbits = list(step.get("inp", [])), 0, 0, []
                 for name, value in step["set"].items():
                     self.set_var(name, value)
                 self.mem.write_word(op_word(lab["dispatch"]) + 1, lab[f"blk_{step['block']}"])
